@@ -76,9 +76,15 @@ def bound(tier, seed):
     return dict(tempo_layouts=len(bpm_layouts(tier)), sv_layouts=len(sv_layouts(tier)), note_layouts=list(NOTES), games=["osu", "qua", "bms"], overrides=[None, 100], grid=list(GRID), bpm=list(BPMV), multipliers=list(SVV))
 
 
+LARGE_NOTES = [(210.0 * i, i % 4, 100.0 if i % 7 == 5 else None) for i in range(1000)]
+# size: 200 tempo points (one second apart, four values in turn), 500 SVs (some on tempo points), 1000 notes
+LARGE_BP = tuple((1000 * k, (120, 90, 180, 60)[k % 4]) for k in range(200))
+LARGE_SV = tuple((400 * j, 0.5 + (j % 5) * 0.25) for j in range(500))
+
+
 def roots(tier, seed):
     nb = len(bpm_layouts(tier))
-    return [dict(game=g, b=i) for g in ("osu", "qua", "bms") for i in range(nb)]
+    return [dict(game=g, b=i) for g in ("osu", "qua", "bms") for i in range(nb)] + [dict(game=g, large=True) for g in ("osu", "qua", "bms")]
 
 
 _C = {}
@@ -89,6 +95,10 @@ def explore(root, tier, ctx):
         _C[tier] = (bpm_layouts(tier), sv_layouts(tier))
     bl, sl = _C[tier]
     game = root["game"]
+    if root.get("large"):
+        for ov in (None, 100.0):
+            check_one(game, LARGE_BP, LARGE_SV if game != "bms" else (), "large", ov, ctx)
+        return
     bp = bl[root["b"]]
     svs = sl if game != "bms" else [()]
     if game == "qua" and tier == "quick":
@@ -154,7 +164,7 @@ def check_one(game, bp, svs, nk, ov, ctx):
     ctx.state(("c19", game, bp, svs, nk, ov), nontrivial=nontriv)
     if nontriv and len(bp) == 3 and len(svs) == 2 and len(ctx.samples) < 1:
         ctx.sample(case)
-    notes = NOTES[nk]
+    notes = NOTES[nk] if nk in NOTES else LARGE_NOTES
     site = dict(game=game)
 
     second_use = ov is None and nk == "hits" and len(bp) >= 2 and len(svs) <= 1
